@@ -272,6 +272,6 @@ using t1_c = TupleTarget<utl::tuple, tracked, int>; REG(t1_c, t1_c, {"utl::tuple
 using t2_a = TupleTarget<utl::tuplev2, int, double, arr3>; REG(t2_a, t2_a, {"utl::tuplev2"})
 using t2_b = TupleTarget<utl::tuplev2, int, uvec, tracked>; REG(t2_b, t2_b, {"utl::tuplev2"})
 using t2_c = TupleTarget<utl::tuplev2, tracked, int>; REG(t2_c, t2_c, {"utl::tuplev2"})
-CONV(2) CONV(3) CONV(4) CONV(5) CONV(6) CONV(8)
+CONV(2) CONV(3) CONV(4) CONV(5) CONV(6) CONV(7) CONV(8) CONV(9) CONV(10) CONV(11) CONV(12)   // every hand-written arity of utl::tuple (tuple2..tuple12)
 
 } // namespace c19
